@@ -19,7 +19,7 @@ func init() {
 			"R-C20-2 Serve starts each task with eg.Go on an errgroup.WithContext group, Run gets a context derived from the group's, a Run error is returned to the group, every return of Serve follows eg.Wait and reports its error, the signal task is part of the waited set; " +
 			"R-C20-3 signalTask.Run: terminator.set(sig) precedes cancel() on every path, sig is the value received from sigC, neither is called on the ctx.Done arm, terminator.term only accessed under mu; " +
 			"R-C20-4 Ready is notified only after wg.Wait(), each per-task goroutine receives from t.Ready() before its deferred wg.Done(); " +
-			"R-C20-5 serve(): 40 attempts, cancelable wait, ErrServerClosed⇒nil, *net.OpError⇒retry, other⇒error R-C20-3 also: Server.t is written by NewServer only; R-C20-4 is decided on the paths of the functions Serve actually starts (go / eg.Go), closures or method values.",
+			"R-C20-5 serve(): 40 attempts, cancelable wait, ErrServerClosed⇒nil, *net.OpError⇒retry, other⇒error R-C20-3 also: Server.t is written by NewServer only; R-C20-4 is decided on the paths of the functions Serve actually starts (go / eg.Go), closures or method values; R-C20-6 the debug HTTP server is stopped with Close (or a deadline-bounded Shutdown) when the task context ends.",
 		Assumptions: []string{
 			"Go type checker and go/ssa construction are correct",
 			"errgroup.WithContext cancels the derived context when a function passed to Go returns a non-nil error, and Wait returns the first such error after all functions returned",
@@ -35,6 +35,7 @@ func runC20(c *Ctx) {
 	c20Signal(c)
 	c20ServeRetry(c)
 	c20ReadyChannels(c)
+	c20HTTPStop(c)
 }
 
 // newDialerMode returns the constant mode passed to the NewDialer call that
@@ -622,4 +623,44 @@ func c20ReadyChannels(c *Ctx) {
 			}
 		}
 	}
+}
+
+
+// c20HTTPStop (R-C20-6): when its context ends the debug HTTP task closes the
+// server at once: the goroutine that waits for ctx.Done() calls
+// (*http.Server).Close. A graceful Shutdown without a deadline waits for every
+// request in flight, so one stalled client keeps the task — and with it Serve —
+// from returning.
+func c20HTTPStop(c *Ctx) {
+	run := c.needMethod("R-C20-6", "internal/corerad", "httpTask", "Run")
+	if run == nil {
+		return
+	}
+	fn := c.fname(run)
+	closes, bad := 0, ""
+	for _, f := range an.WithAnon(run) {
+		for _, ci := range an.CallsIn(f) {
+			fo := an.CalleeObj(ci.Common())
+			if fo == nil || fo.Pkg() == nil || fo.Pkg().Path() != "net/http" {
+				continue
+			}
+			switch fo.Name() {
+			case "Close":
+				closes++
+			case "Shutdown":
+				// only with a context that expires by itself
+				arg := c.XO.Of(ci.Common().Args[len(ci.Common().Args)-1])
+				bounded := arg.Contains(func(x *an.Expr) bool {
+					return x.Op == an.OpCall && x.Fn != nil && (x.Fn.String() == "context.WithTimeout" || x.Fn.String() == "context.WithDeadline")
+				})
+				if !bounded {
+					bad = "http.Server.Shutdown(" + shortExpr(arg) + ") at " + c.pos(ci.Pos()) + " waits for requests in flight without a deadline"
+				} else {
+					closes++
+				}
+			}
+		}
+	}
+	c.R.Check(closes >= 1 && bad == "", "R-C20-6", fn+":server-closed-on-cancel", fn, c.pos(run.Pos()), fmt.Sprintf("%d prompt stop call(s); %s", closes, bad),
+		"the server is stopped with Close (or a Shutdown bounded by a deadline) when the context ends", "a debug request in flight keeps the HTTP task, and therefore Serve, from returning after a signal or a fatal error")
 }
